@@ -53,6 +53,7 @@ M = [  # (name, file, old, new, property)
     ('sort-inner-range-short', 'bdd.py', "        for i in range(n - 1):\n            for root in bdd.roots:", "        for i in range(n - 2):\n            for root in bdd.roots:", 'C07'),
     ('shift-wrong-neighbour', 'bdd.py', "        j = i + d\n        oldn, n = bdd.swap(i, j, levels)", "        j = i - d\n        oldn, n = bdd.swap(i, j, levels)", 'C07'),
     ('shift-one-too-far', 'bdd.py', "    for i in range(start, end, d):\n        j = i + d", "    for i in range(start, end + d, d):\n        j = i + d", 'C07'),
+    ('undeclare-skip-in-use-check', 'bdd.py', "            if level in full_levels:\n                raise ValueError(", "            if level in full_levels and level < 0:\n                raise ValueError(", 'C14'),
     ('harmless-exception-class', 'bdd.py', "        if var not in self.vars:\n            raise ValueError(\n                f'undeclared variable \"{var}\", '", "        if var not in self.vars:\n            raise KeyError(\n                f'undeclared variable \"{var}\", '", 'C17'),
     ('harmless-ite-high-first', 'bdd.py', "        p = self._ite(g0, u0, v0)\n        q = self._ite(g1, u1, v1)\n", "        q = self._ite(g1, u1, v1)\n        p = self._ite(g0, u0, v0)\n", 'C01'),
     ('harmless-add_var-inverse-first', 'bdd.py', "        self.vars[var] = level\n        self._level_to_var[level] = var\n", "        self._level_to_var[level] = var\n        self.vars[var] = level\n", 'C14'),
